@@ -18,6 +18,7 @@ import (
 	"github.com/practable/relay/internal/deny"
 	"github.com/practable/relay/internal/permission"
 	"github.com/practable/relay/internal/ttlcode"
+	"github.com/practable/relay/internal/verifhook"
 	log "github.com/sirupsen/logrus"
 )
 
@@ -247,13 +248,16 @@ func sessionHandler(config Config) func(operations.SessionParams, interface{}) m
 			return operations.NewSessionBadRequest().WithPayload(&models.Error{Code: &c, Message: &m})
 		}
 
+		verifhook.Point("session.beforeDenyCheck", claims.BookingID)
 		if config.DenyStore.IsDenied(claims.BookingID) {
 			c := "400"
 			m := "bookingID has been deny-listed, probably because the session was cancelled"
 			return operations.NewSessionBadRequest().WithPayload(&models.Error{Code: &c, Message: &m})
 		}
+		verifhook.Point("session.afterDenyCheck", claims.BookingID)
 		// track bookingIDs for which we have received connection requests
 		config.DenyStore.Allow(claims.BookingID, claims.ExpiresAt.Unix())
+		verifhook.Point("session.afterAllow", claims.BookingID)
 
 		// TODO - have the scopes been checked already?
 
@@ -270,6 +274,7 @@ func sessionHandler(config Config) func(operations.SessionParams, interface{}) m
 		pt.SetBookingID(claims.BookingID)
 
 		code := config.CodeStore.SubmitToken(pt)
+		verifhook.Point("session.afterSubmit", claims.BookingID)
 
 		log.Trace(fmt.Sprintf("submitting token of type %T", pt))
 
@@ -309,10 +314,14 @@ func denyHandler(config Config) func(operations.DenyParams, interface{}) middlew
 			return operations.NewDenyBadRequest().WithPayload(&models.Error{Code: &c, Message: &m})
 		}
 
+		verifhook.Point("deny.beforeDeny", params.Bid)
 		config.DenyStore.Deny(params.Bid, params.Exp)
+		verifhook.Point("deny.afterDeny", params.Bid)
 
 		config.CodeStore.DeleteByBookingID(params.Bid) //remove any tokens with the bookingID in them
+		verifhook.Point("deny.afterPurge", params.Bid)
 		config.DenyChannel <- params.Bid               // alert crossbar we need to cancel some connections
+		verifhook.Point("deny.afterNotify", params.Bid)
 
 		return operations.NewDenyNoContent()
 	}
@@ -348,7 +357,9 @@ func allowHandler(config Config) func(operations.AllowParams, interface{}) middl
 			return operations.NewAllowBadRequest().WithPayload(&models.Error{Code: &c, Message: &m})
 		}
 
+		verifhook.Point("allow.beforeAllow", params.Bid)
 		config.DenyStore.Allow(params.Bid, params.Exp)
+		verifhook.Point("allow.afterAllow", params.Bid)
 
 		return operations.NewAllowNoContent()
 	}
